@@ -371,6 +371,26 @@ def run(ctx):
     check_non_measured(ctx)
     check_binding(ctx)
     check_exact(ctx)
+    # "exactly coefficient times eigenvalue regardless of shot count": the values are averaged from sampled tuples, so both
+    # sampling regimes of sample_from_wavefunction must number the qubits like the circuit does (rule shared with C04-D1)
+    from ..report import Ctx as _Ctx
+    from . import c04
+
+    sub = _Ctx("C04", ctx.repo, ctx.tier)
+    try:
+        pk = c04.outcome_key_parity(sub)
+        pb = c04.elementwise_parity(sub, f"{c04.UT}:bitstring_to_tuple")
+        pc = c04.collection_map_parity(sub, f"{c04.UT}:convert_bitstrings_to_tuples", "bitstring_to_tuple", pb)
+        sub.check((pk + pc) % 2 == 0, c04.R1, "path:amplitude-index->outcome-key->tuple", "get_outcome_probs and convert_bitstrings_to_tuples cancel", f"get_outcome_probs applies {pk} reversal(s) and the string->tuple conversion {pc}: odd in total", "")
+        c04.check_sampling(sub, pk, pc)
+    except c04.Und as e:
+        sub.undecided(c04.R1, "path:amplitude-index->tuple", str(e))
+    except c04.PathsDisagree as e:
+        sub.violation(c04.R1, f"{e.fi.key}:exits-agree", str(e), e.fi)
+    for o in sub.obligations:
+        ctx._add(o.status, "C15-D6 sampled-values-independent-of-shot-count", o.construct, o.detail, o.where)
+    ctx.functions_analysed |= sub.functions_analysed
+    ctx.floor("C15-D6", 3)
     ctx.floor("C15-D1", 14)
     ctx.floor("C15-D2", 2)
     ctx.floor("C15-D3", 4)
